@@ -63,6 +63,18 @@ def cases(rng, thorough):
             cs.append((flat, dim, nobj, [int(v) for v in vals]))
     for n in range(1, 13):
         cs.append((tri(n), n, 2, [int(v) for v in rng.permutation(2 * tri(n))]))
+    # content patterns (the map must not depend on what the values look like): all zero, zero diagonal with non-zero off-diagonals, a single
+    # non-zero entry at every packed position, a "degenerate" object between ordinary ones
+    for n in range(1, 9 if thorough else 7):
+        t = tri(n)
+        diag = {a * (a + 1) // 2 + a for a in range(n)}
+        zero_diag = [0 if k in diag else int(rng.integers(1, 900)) for k in range(t)]
+        ordinary = [int(v) + 1 for v in rng.permutation(t)]
+        cs.append((t, n, 3, ordinary + zero_diag + [int(v) + 2000 for v in rng.permutation(t)]))
+        cs.append((t, n, 2, [0] * t + ordinary))
+        cs.append((t, n, 1, zero_diag))
+        for k in range(t):
+            cs.append((t, n, 1, [7 if j == k else 0 for j in range(t)]))
     # large dimensions (packed length beyond 8-bit / 16-bit index ranges: 23 -> 276, 363 -> 66066 only in the thorough tier)
     for n in list(range(13, 31)) + [32, 40, 45, 64] + ([100, 363] if thorough else []):
         cs.append((tri(n), n, 2, [int(v) for v in rng.permutation(2 * tri(n))]))
